@@ -33,10 +33,12 @@ CHECKS['C09'] = dict(engine='crash-shim', level='fault_enumeration', technique='
 CHECKS['C08'] = dict(engine='proc-sim', level='exploration', technique='deterministic simulation of process histories over persistent state: each lifecycle command runs in its own forked child over one build directory, with seeded option assignments, option-file edits and injected failures (invalid -D, armed error(), OSError at the k-th storage call); a reference model is stepped after every operation and compared with get_option() values, command outcomes and the recorded command line',
    text='Seeded search over bounded histories (2-12 steps). Fault-free and fault-injecting histories are generated separately so the failed-step relaxation never hides a persistence bug.',
    note='Trusted: models/options_ref.py (written from the statement; cases the statement does not decide are marked undetermined and followed, not judged). Real code: msetup, mconf, coredata, cmdline, OptionStore, interpreter.', ref='DESIGN §3 C08')
+CHECKS['C10'] = dict(engine='proc-sim+net', level='exploration', technique='deterministic simulation with fault injection: real interpreter/dependency()/wrap.Resolver in a forked child against a scripted fake HTTP server, simulated back-off clock, digest-recording unpacker and a private pkg-config world; faults (URLError, OSError, truncated body, flipped byte, substituted archive, corrupt cache/packagefiles, failing patch/diff) injected at each acquisition step; results compared with a transcription of the documented policy, integrity invariants checked on every unpack, and the world is configured a second time',
+   text='Seeded search over the policy cross product and over fault sequences along fetch -> verify -> unpack -> patch -> diff, each world run twice so that what a failed run leaves behind is also judged.',
+   note='Trusted: models/deps_ref.py (policy and acquisition procedure written from the statement and the manuals; an unverifiable corrupt local archive is marked undetermined), fake server implements info()/read()/close() only. Real code: DependencyFallbacksHolder, pkg-config detection with the real binary, wrap.Resolver incl. patch(1).', ref='DESIGN §3 C10')
 PENDING = {
  'C05': 'claimed in DESIGN §3 (ninja-sim schedules + hermetic replay) - check not built yet in this revision',
  'C06': 'claimed in DESIGN §3 (nondeterminism seams) - check not built yet in this revision',
- 'C10': 'claimed in DESIGN §3 (fake network + fallback policy model) - check not built yet in this revision',
  'C11': 'claimed in DESIGN §3 (audit-hook FS monitor, install histories) - check not built yet in this revision',
 }
 m = {
